@@ -35,7 +35,70 @@ def _expected(op, seqs, rules):
 EMPTY = ("empty",)
 
 
-def denote(t):
+def denote(t, empties=()):
+    """denote_raw with extra knowledge: the terms listed in `empties` (normal forms) are known to be the empty set on this
+    execution path (an outcome on which the code found a fix_winding result to have area 0)."""
+    d = denote_raw(t)
+    if not empties:
+        return d
+    for _ in range(8):
+        d2 = _subst_empty(d, tuple(empties))
+        if d2 == d:
+            break
+        d = d2
+    return d
+
+
+def _subst_empty(d, empties):
+    if d in empties:
+        return EMPTY
+    if not isinstance(d, tuple) or not d:
+        return d
+    if d[0] in ("U", "I"):
+        ops = [_subst_empty(x, empties) for x in d[1]]
+        if d[0] == "I":
+            if EMPTY in ops:
+                return EMPTY
+            for e in empties:  # a sub-intersection known to be empty
+                if isinstance(e, tuple) and e and e[0] == "I" and all(x in ops for x in e[1]):
+                    return EMPTY
+        else:
+            ops = [x for x in ops if x != EMPTY]
+            if not ops:
+                return EMPTY
+        ops = list(dict.fromkeys(ops))
+        return ops[0] if len(ops) == 1 else (d[0], tuple(sorted(ops, key=repr)))
+    if d[0] == "D":
+        base, sub = _subst_empty(d[1], empties), _subst_empty(d[2], empties)
+        if base == EMPTY:
+            return EMPTY
+        if sub == EMPTY:
+            return base
+        members = set(sub[1]) if isinstance(sub, tuple) and sub and sub[0] == "U" else {sub}
+        for e in empties:  # A - B is known to be empty: so is A - (B u C)
+            if isinstance(e, tuple) and e and e[0] == "D" and e[1] == base:
+                em = set(e[2][1]) if isinstance(e[2], tuple) and e[2] and e[2][0] == "U" else {e[2]}
+                if em <= members:
+                    return EMPTY
+        return ("D", base, sub)
+    return d
+
+
+def empties_of(outcome):
+    """Region facts an outcome has learned: a decision `area of a fix_winding result is not positive` says its region is empty."""
+    out = []
+    for c, v in outcome.decisions:
+        neg = False
+        while getattr(c, "op", None) == "not":
+            c, neg = c.args[0], not neg
+        if getattr(c, "op", None) == "area-positive" and (v if neg else not v):
+            a = c.args[0]
+            if a.path.normalized:
+                out.append(denote_raw(a.path.current_region()))
+    return tuple(out)
+
+
+def denote_raw(t):
     """Normal form of a region term under the laws of set algebra that do not depend on geometry: the empty path is the empty set;
     union and intersection are associative, commutative and idempotent (a regrouped fold is the same region); A - B - C = A - (B u C);
     X - X and X - everything-including-X are empty; `simplified` does not change the region."""
@@ -44,9 +107,9 @@ def denote(t):
     if t[0] == "fill":
         return EMPTY if not t[1] else t
     if t[0] == "simplified":
-        return denote(t[1])
+        return denote_raw(t[1])
     if t[0] == "op":
-        kind, a, b = t[1], denote(t[2]), denote(t[3])
+        kind, a, b = t[1], denote_raw(t[2]), denote_raw(t[3])
         if kind.endswith("UNION") or kind.endswith("INTERSECTION"):
             tag = "U" if kind.endswith("UNION") else "I"
             ops = []
@@ -133,11 +196,18 @@ def check_pathops(repo: Repo, rep: Report, rules: Dict[str, str]):
                     probs["region"].append((F, f"{name} of {k} operands raises {o.raised} ({o.raise_msg})"))
                     continue
                 res = _result(o.value, box["it"].iterate)
+                want = _expected(op, seqs, rl)
+                known = empties_of(o)
+                if res == []:
+                    # no commands at all: right exactly when the requested region is known to be empty on this path
+                    if denote(want, known) != EMPTY:
+                        probs["region"].append((F, f"{name} of {k} operands under rules {rl} returns no geometry without asking the engine; "
+                                                   f"the set operation over every operand under its own rule is {_short(want)}, which nothing on this path shows to be empty"))
+                    continue
                 if not isinstance(res, SkPath):
                     probs["region"].append((F, f"{name} of {k} operands returns {res!r}, not the engine's result"[:300]))
                     continue
-                want = _expected(op, seqs, rl)
-                if denote(res.current_region()) != denote(want):
+                if denote(res.current_region(), known) != denote(want, known):
                     probs["region"].append((F, f"{name} of {k} operands under rules {rl} asks the engine for {_short(res.current_region())}; "
                                                f"the set operation over every operand under its own rule is {_short(want)}"))
                 if not res.normalized:
@@ -261,7 +331,10 @@ def check_shape_wrappers(repo: Repo, rep: Report, rule: str):
                         continue
                     res = _result(o.value, box["it"].iterate)
                     want = _expected(op, [_cmds(ids[i]) for i in range(k)], rl[:k])
-                    if not isinstance(res, SkPath) or denote(res.current_region()) != denote(want):
+                    known = empties_of(o)
+                    if res == [] and denote(want, known) == EMPTY:
+                        continue
+                    if not isinstance(res, SkPath) or denote(res.current_region(), known) != denote(want, known):
                         got = _short(res.current_region()) if isinstance(res, SkPath) else repr(res)[:200]
                         probs["pairing"].append((F, f"{name} of {k} shapes ({title} {rl[:k]}) asks the engine for {got}; every shape under its own rule, in order, is {_short(want)}"))
                     elif not res.normalized:
